@@ -33,17 +33,17 @@ func (c06) Rule() string {
 // type below that (a clean mismatch error).
 type c06Leaf struct{ Name string }
 type c06Inner = struct {
-	hidden                                                                 any `bcl:"level"` // unexported and tagged: must be refused, not set
-	Name                                                                   string
+	hidden                                                                  any `bcl:"level"` // unexported and tagged: must be refused, not set
+	Name                                                                    string
 	F, Ff, G, Opt, Level, Remote, Field, Enabled, LocalPort, MaxLatency, H1 any
-	Extras, Tunnel, Server, T1, Blk, Point, Db, AB, T                      c06Leaf
+	Extras, Tunnel, Server, T1, Blk, Point, Db, AB, T                       c06Leaf
 }
 type c06Target = struct {
-	hidden                                                                 any `bcl:"opt"` // unexported and tagged: must be refused, not set
-	Name                                                                   string
+	hidden                                                                  any `bcl:"opt"` // unexported and tagged: must be refused, not set
+	Name                                                                    string
 	F, Ff, G, Opt, Level, Remote, Field, Enabled, LocalPort, MaxLatency, H1 any
-	Extras, Tunnel, Server, T1, Blk, Point, Db, AB, T                      c06Inner
-	Pt                                                                     *c06Leaf // a pointer where a nested block wants a struct: an error, not a panic
+	Extras, Tunnel, Server, T1, Blk, Point, Db, AB, T                       c06Inner
+	Pt                                                                      *c06Leaf // a pointer where a nested block wants a struct: an error, not a panic
 }
 
 // bindValues writes a small program whose bound block holds values of every kind,
@@ -79,6 +79,11 @@ func bindValues(r *prng.R) []byte {
 	return []byte(sb.String())
 }
 
+var c06Large = []struct {
+	kind string
+	n    int
+}{{"manyconsts", 67830}, {"manyconsts", 2295}, {"hugeident", 70000}, {"hugestring", 300000}, {"manyconsts", 16500}, {"hugestring", 70000}}
+
 func (c06) Gen(seed uint64, idx int, tier string) *Scenario {
 	r := prng.New(seed, "C06", idx)
 	sc := &Scenario{Prop: "C06", Seed: seed, Idx: idx, Name: "f.bcl"}
@@ -111,6 +116,14 @@ func (c06) Gen(seed uint64, idx int, tier string) *Scenario {
 	default:
 		sc.Src = gen.TokenSoup(r, r.Range(1, 64))
 		sc.Class = "soup"
+	}
+	// the large sizes (operands of three and more bytes, buffers beyond 64 KiB) are visited by
+	// the first run indices of every batch, not left to a 1-in-400 draw
+	if idx < len(c06Large) {
+		gen.ForceN = c06Large[idx].n
+		sc.Src = gen.LimitProgram(r, c06Large[idx].kind, true)
+		gen.ForceN = 0
+		sc.Class = "limit:" + c06Large[idx].kind
 	}
 	sc.API = prng.Pick(r, []string{"ParseFile", "InterpretFile", "InterpretFile", "UnmarshalFile"})
 	if r.Chance(1, 5) {
